@@ -566,6 +566,12 @@ func (c *Checker) checkSupply(x *callCtx) {
 			k := TokenKey(a[0], 0)
 			addTo(c.expected, k, neg(c.cache.decode(x.pre.value(call.Rcv, k)).Val()))
 		}
+	case FnTransfer:
+		// E5: the system contract's own ESDTTransfer is how issued supply enters a shard (it is not the delivery of a
+		// message some shard emitted): the world total rises by exactly the amount
+		if x.isSys && x.msg == nil && len(a) >= 2 {
+			addTo(c.expected, TokenKey(a[0], 0), Big(a[1]))
+		}
 	}
 	// "any operation that would take more than the account holds fails": a successful burn above the pre-state holding
 	switch call.Fn {
